@@ -80,6 +80,7 @@ THEOREMS = [
     "Verif.C07.flat_tether_is_identity",
     "Verif.C07.visible_frames_resolve",
     "Verif.C07.define_tether_calibrated",
+    "Verif.C07.ranges_legacy_eq",
 ]
 RULE = (
     "corpus (F2 inputs) + exhaustive small scope on real TIFF stacks of n<=6 frames of 4x5 pixels: every slice with "
@@ -2000,12 +2001,31 @@ def extra_coverage(results):
             else:
                 key = "refused: " + a.split(":")[0]
             kymo_branches[key] = kymo_branches.get(key, 0) + 1
+    time_branches, calibrated = {}, {}
+    for r in results:
+        c = r["case"]
+        if c["op"] == "prog" and c["stream"] == "time-exhaustive":
+            a = r["impl"][0]
+            st = c["prog"][-1]
+            kind = "/".join("None" if b is None else ("string" if isinstance(b, dict) else "timestamp") for b in st[1:3])
+            if a.startswith("ok "):
+                n_sel = len(json.loads(a.split(" ")[1]))
+                n_before = len(range(*slice(*c["prog"][0][1:4]).indices(sum(c["spec"]["files"])))) if len(c["prog"]) > 1 else sum(c["spec"]["files"])
+                key = kind + (": all frames" if n_sel == n_before else ": proper subset")
+            else:
+                key = kind + ": " + a.split(":")[0]
+            time_branches[key] = time_branches.get(key, 0) + 1
+        if c["op"] == "prog" and c["stream"] == "calibrated":
+            kinds = "".join(st[0] for st in c["prog"])
+            key = ("re-tethered" if kinds.count("T") > 1 else "tether") + (", cropped afterwards" if "c" in kinds.split("T", 1)[1] else "")
+            calibrated[key] = calibrated.get(key, 0) + 1
     unseen = sum(1 for r in results for a in r["impl"] if a == UNSEEN or f" {UNSEEN} " in a or "src=" + UNSEEN in a)
     return {
         "internal_helpers_reached": {k: v is not None for k, v in sorted(_PRIVATE.items())},
         "answers_with_unobserved_internals": unseen,
         "case_kinds": kinds, "error_kinds": errs, "stack_sizes": sizes, "colour_formats": colours, "files_per_stack": files,
-        "operations_by_kind": lens, "get_image_pixel_comparisons": image_cases, "to_kymo_branches": kymo_branches, "bead_cases_followed": beads, "exhaustive": False,
+        "operations_by_kind": lens, "get_image_pixel_comparisons": image_cases, "to_kymo_branches": kymo_branches,
+        "time_bound_branches": time_branches, "calibrated_tether_cases": calibrated, "bead_cases_followed": beads, "exhaustive": False,
         "exhaustive_note": "small-scope, roi-exhaustive, py-selftest, pages, legacy, time-exhaustive, kymo-exhaustive streams "
                            "enumerate their finite spaces completely; random-programs, commute, kymo, calibrated, beads "
                            "streams are seeded samples",
